@@ -5,6 +5,8 @@ package main
 
 import (
 	"bytes"
+	"crypto/sha256"
+	"encoding/hex"
 	"fmt"
 	"go/ast"
 	"go/parser"
@@ -31,16 +33,53 @@ func c12IsSel(e ast.Expr, x, sel string) bool {
 	return ok && id.Name == x
 }
 
+func c12DefaultClause(fd *ast.FuncDecl) *ast.CaseClause {
+	var r *ast.CaseClause
+	ast.Inspect(fd.Body, func(n ast.Node) bool {
+		if cc, ok := n.(*ast.CaseClause); ok && cc.List == nil && r == nil {
+			r = cc
+		}
+		return true
+	})
+	return r
+}
+
+func c12Digest(s string) string {
+	h := sha256.Sum256([]byte(s))
+	return hex.EncodeToString(h[:6])
+}
+
 func genC12() {
 	// ---- decoder.go: read sites and offset updates, per method, in source order
 	fset, f := parseFile("pkg/redis/client/decoder.go")
-	var sites []string
+	var sites, inlineSites []string
 	for _, d := range f.Decls {
 		fd, ok := d.(*ast.FuncDecl)
 		if !ok || fd.Body == nil {
 			continue
 		}
+		// the inline-command path (decodeSingleLineBulkBytesArray and the `default:` clause of
+		// decodeResp's type switch) is outside C12's quantifier: listed, not pinned
+		var inlineFrom, inlineTo token.Pos
+		if fd.Name.Name == "decodeSingleLineBulkBytesArray" {
+			inlineFrom, inlineTo = fd.Body.Pos(), fd.Body.End()
+		}
+		if fd.Name.Name == "decodeResp" {
+			ast.Inspect(fd.Body, func(n ast.Node) bool {
+				if cc, ok := n.(*ast.CaseClause); ok && cc.List == nil {
+					inlineFrom, inlineTo = cc.Pos(), cc.End()
+				}
+				return true
+			})
+		}
+		all := sites
+		sites = nil
 		ast.Inspect(fd.Body, func(n ast.Node) bool {
+			if n != nil && inlineFrom.IsValid() && n.Pos() >= inlineFrom && n.End() <= inlineTo {
+				if _, isStmt := n.(ast.Stmt); isStmt || n.Pos() != inlineFrom {
+					// handled by the second pass below
+				}
+			}
 			switch x := n.(type) {
 			case *ast.IncDecStmt:
 				if c12IsSel(x.X, "d", "offset") {
@@ -70,8 +109,66 @@ func genC12() {
 			}
 			return true
 		})
+		// split what was collected for this function by position is not possible from strings;
+		// redo cheaply: a site belongs to the inline path iff the function is the inline reader or
+		// the statement text is found inside the default clause
+		var dflt string
+		if inlineFrom.IsValid() && fd.Name.Name == "decodeResp" {
+			var b bytes.Buffer
+			printer.Fprint(&b, fset, &ast.BlockStmt{List: c12DefaultClause(fd).Body})
+			dflt = strings.Join(strings.Fields(b.String()), " ")
+		}
+		for _, st := range sites {
+			body := strings.TrimPrefix(st, fd.Name.Name+": ")
+			isInline := fd.Name.Name == "decodeSingleLineBulkBytesArray" ||
+				(dflt != "" && (strings.Contains(dflt, body) || strings.Contains(dflt, strings.TrimPrefix(body, "read "))))
+			if isInline {
+				inlineSites = append(inlineSites, st)
+			} else {
+				all = append(all, st)
+			}
+		}
+		sites = all
 	}
 	facts["c12_decoder_sites"] = sites
+	facts["c12_decoder_sites_inline"] = inlineSites
+
+	// ---- bodies of the multi-bulk path, pinned by digest (a change there needs the model re-read;
+	// decodeResp is pinned without its `default:` (inline) clause)
+	bodies := map[string]string{}
+	pin := func(rel string, names ...string) {
+		fs, af := parseFile(rel)
+		for _, d := range af.Decls {
+			fd, ok := d.(*ast.FuncDecl)
+			if !ok || fd.Body == nil {
+				continue
+			}
+			for _, n := range names {
+				if fd.Name.Name != n {
+					continue
+				}
+				var node ast.Node = fd.Body
+				if n == "decodeResp" {
+					if cc := c12DefaultClause(fd); cc != nil {
+						saved := cc.Body
+						cc.Body = nil
+						txt := c12Render(fs, fd.Type) + " " + c12Render(fs, fd.Body)
+						cc.Body = saved
+						bodies[rel+":"+n] = c12Digest(txt)
+						continue
+					}
+				}
+				bodies[rel+":"+n] = c12Digest(c12Render(fs, fd.Type) + " " + c12Render(fs, node))
+			}
+		}
+	}
+	pin("pkg/redis/client/decoder.go", "NewDecoder", "MustDecodeOpt", "decodeResp", "decodeType", "decodeText", "decodeInt", "decodeBulkBytes", "decodeArray")
+	pin("pkg/redis/client/handler.go", "ParseArgs", "ChangeArgsToResp")
+	pin("pkg/redis/client/resp.go", "AsBulkBytes", "AsArray")
+	pin("pkg/redis/client/encoder.go", "itos", "encodeResp", "encodeType", "encodeString", "encodeInt", "encodeBulkBytes", "encodeArray")
+	pin("pkg/redis/client/proto/writer.go", "WriteArgs", "writeLen", "WriteArg", "bytes", "string", "uint", "int", "float", "crlf")
+	pin("pkg/redis/client/conn/redis_conn.go", "Send", "send")
+	facts["c12_bodies"] = bodies
 
 	// ---- users of the stream decoder and their offset arithmetic
 	var users, uses, reassigned []string
@@ -147,24 +244,39 @@ func genC12() {
 					return true
 				}
 				if id, ok := n.(*ast.Ident); ok && id.Name == offVar && len(stack) > 0 {
-					par := stack[len(stack)-1]
-					switch px := par.(type) {
-					case *ast.AssignStmt:
-						def := false
-						for _, l := range px.Lhs {
-							if l == ast.Expr(id) {
-								def = true
+					// render the whole enclosing statement (or `Key: value` of a composite literal), so
+					// that `startOffset + incrOffset - 1` or an extra term cannot hide behind the innermost sum
+					var enc ast.Node
+					def := false
+					for i := len(stack) - 1; i >= 0 && enc == nil; i-- {
+						switch px := stack[i].(type) {
+						case *ast.KeyValueExpr:
+							enc = px
+						case *ast.AssignStmt:
+							for _, l := range px.Lhs {
+								if l == ast.Expr(id) {
+									def = true
+								}
+							}
+							enc = px
+						case *ast.BlockStmt, *ast.CaseClause, *ast.CommClause:
+							enc = stack[i+1]
+						case ast.Stmt:
+							switch px.(type) {
+							case *ast.IfStmt, *ast.ForStmt, *ast.SwitchStmt, *ast.SelectStmt, *ast.RangeStmt, *ast.LabeledStmt:
+								// keep climbing only through simple statements; for a compound one render the
+								// nearest expression below it
+								enc = stack[i+1]
+							default:
+								enc = px
 							}
 						}
-						if !def {
-							uses = append(uses, fmt.Sprintf("%s:%s:%s", rel, fd.Name.Name, c12Render(fs, px)))
-						}
-					case *ast.BinaryExpr:
-						uses = append(uses, fmt.Sprintf("%s:%s:%s", rel, fd.Name.Name, c12Render(fs, px)))
-					case *ast.CallExpr:
-						uses = append(uses, fmt.Sprintf("%s:%s:arg of %s", rel, fd.Name.Name, c12Render(fs, px.Fun)))
-					default:
-						uses = append(uses, fmt.Sprintf("%s:%s:%T", rel, fd.Name.Name, par))
+					}
+					if enc == nil {
+						enc = stack[len(stack)-1]
+					}
+					if !def {
+						uses = append(uses, fmt.Sprintf("%s:%s:%s", rel, fd.Name.Name, c12Render(fs, enc)))
 					}
 				}
 				stack = append(stack, n)
